@@ -222,7 +222,91 @@ where
     None
 }
 
+// ------------------------------------------------------------ loud integer input
+/// (f) Loud integer input (up to 0.95 of full scale): the enumerated histories above stay at a
+/// quarter of full scale, where no sum can leave the sample range. Here the kernel is modelled
+/// independently (weight of the tap at distance t: sinc(t) x (0.5 + 0.5 cos(pi t / depth)); every
+/// tap contribution truncated toward zero, accumulated centre-first as the implementation does) so
+/// that the result and every partial sum are known as integers.
+/// * result fits and no panic: the output must equal the modelled sum within 2 depth + 2 LSB;
+/// * a panic although every centre-first partial sum stays inside the sample range with a margin:
+///   a violation (`sinc.panic`);
+/// * a panic where a centre-first partial sum leaves the sample range although the result fits: the
+///   recorded finding `sinc.int-partial-sum-overflow` (builds with overflow checks only).
+fn loud_case(fmt: usize, depth: usize, pattern: usize, amp_pct: usize, x16: usize) -> Option<Bad> {
+    let x = x16 as f64 / 16.0;
+    let (half, name) = if fmt == 0 { (32768i64, "[i16;1]") } else { (128i64, "[u8;1]") };
+    let a = (half - 1) * amp_pct as i64 / 100;
+    let hist: Vec<i64> = (0..2 * depth + 3)
+        .map(|i| match pattern {
+            0 => a,
+            1 => if i % 2 == 0 { a } else { -a },
+            2 => if (i / 2) % 2 == 0 { a } else { -a },
+            3 => if i + 1 >= depth + 3 && i + 1 <= depth + 4 { a } else { 0 },
+            _ => -a,
+        })
+        .collect();
+    let tag = format!("{name} depth {depth}, history of signed amplitudes {hist:?} (full scale {half}), x = {x}");
+    // the ring holds the last 2*depth frames, oldest first
+    let ring: Vec<i64> = hist[hist.len() - 2 * depth..].to_vec();
+    let w = |t: f64| -> f64 {
+        let arg = std::f64::consts::PI * t;
+        (if arg == 0.0 { 1.0 } else { arg.sin() / arg }) * (0.5 + 0.5 * (arg / depth as f64).cos())
+    };
+    let term = |wt: f64, v: i64| -> i64 { (wt * (v as f64 / half as f64) * half as f64) as i64 };
+    let mut acc = 0i64;
+    let (mut lo, mut hi) = (0i64, 0i64);
+    for n in 0..depth {
+        acc += term(w(x + n as f64), ring[depth - n]);
+        lo = lo.min(acc);
+        hi = hi.max(acc);
+        acc += term(w(1.0 - x + n as f64), ring[(depth + 1 + n) % (2 * depth)]);
+        lo = lo.min(acc);
+        hi = hi.max(acc);
+    }
+    let margin = 2 * depth as i64 + 2;
+    let fits = |v: i64, m: i64| v - m >= -half && v + m <= half - 1;
+    let out: Result<i64, String> = if fmt == 0 {
+        let mut s = Sinc::new(Fixed::from(vec![[0i16; 1]; 2 * depth]));
+        for &v in &hist {
+            s.next_source_frame([v as i16]);
+        }
+        catch(|| s.interpolate(x)[0] as i64)
+    } else {
+        let mut s = Sinc::new(Fixed::from(vec![[128u8; 1]; 2 * depth]));
+        for &v in &hist {
+            s.next_source_frame([(v + 128) as u8]);
+        }
+        catch(|| s.interpolate(x)[0] as i64 - 128)
+    };
+    match out {
+        Ok(o) => {
+            if fits(acc, margin) && (o - acc).abs() > margin {
+                return Some(("sinc.loud".into(), format!("{tag}: output amplitude {o}, the kernel model (centre-first sum of truncated tap contributions) gives {acc}")));
+            }
+            None
+        }
+        Err(p) => {
+            if fits(lo, margin) && fits(hi, margin) {
+                Some(("sinc.panic".into(), format!("{tag}: panicked ({p}) although every partial sum of the tap contributions stays within [{lo}, {hi}]")))
+            } else if !fits(lo, -margin) || !fits(hi, -margin) {
+                if fits(acc, margin) {
+                    Some(("sinc.int-partial-sum-overflow".into(), format!("{tag}: panicked ({p}): the result {acc} fits but a centre-first partial sum reaches [{lo}, {hi}]")))
+                } else {
+                    None // the result itself leaves the sample range: outside the property's domain
+                }
+            } else {
+                None // a partial sum within rounding distance of the range limit: not judged
+            }
+        }
+    }
+}
+
 fn dispatch(v: &Value) -> Option<Bad> {
+    if v["sys"] == "loud" {
+        let g = |k: &str| v[k].as_u64().unwrap_or(0) as usize;
+        return loud_case(g("fmt_ix"), g("depth"), g("pattern"), g("amp_pct"), g("x16"));
+    }
     let us = |k: &str| v[k].as_u64().unwrap_or(0) as usize;
     let fl = |k: &str| -> Vec<f64> { v[k].as_array().map(|a| a.iter().map(|x| x.as_f64().unwrap_or(0.0)).collect()).unwrap_or_default() };
     let x = v["x"].as_f64().unwrap_or(0.0);
@@ -307,6 +391,18 @@ fn main() {
             }
         }
     }
+    // (f) loud integer input
+    for fmt_ix in 0..2usize {
+        for d in [1usize, 2, 3, 4, 8, 16] {
+            for pattern in 0..5usize {
+                for amp_pct in [50usize, 70, 88, 95] {
+                    for x16 in 0..16usize {
+                        cases.push(json!({"sys":"loud","fmt_ix":fmt_ix,"depth":d,"pattern":pattern,"amp_pct":amp_pct,"x16":x16}));
+                    }
+                }
+            }
+        }
+    }
     let evals = AtomicU64::new(0);
     cases.par_iter().for_each(|case| {
         let _guard_scope = guard::scoped(&case.to_string());
@@ -323,7 +419,7 @@ fn main() {
     ctx.set("depths", json!(depths));
     ctx.set("exhaustive", json!(true));
     ctx.set("exhaustive_scope", json!("the stated finite grid of depths, fractional positions, priming levels and histories over a 5-letter alphabet; other depths / positions / amplitudes are not explored"));
-    ctx.rule("frames f64, [f32;2], [i16;1]; depths 1..=8 and scale probes 12,16,17,25,32,33,50,64,100,128 (thorough 1..=16 and 17,20,25,31,32,33,50,63,64,65,100,127,128,129,200,256; depths above 8 with every 7th source, histories of length 2 and priming levels 0, depth, 2*depth only); (a) ratio 1 through Converter over an instrumented source: every source over {-1,-1/2,0,1/2,1} of length <=4 (thorough 5) plus impulse/step/ramp of length 3*depth: output k == 0 for k<depth and source[k-depth] after, within 1e-12 x peak, one pull per output; (b) linearity at x in k/16 (quick k/8) and at every priming level 0..=2*depth: impulse responses out(e_j) measured on the real code, every history over the alphabet of length <=3 (thorough 5): |out(h) - sum h_j out(e_j)| within (8 depth + 64) ulp x peak (ints: (2 depth + 2) LSB per term), out(c h) == c out(h) for c in {-1,1/2,2}; (c) every output finite; (d) constant input, depth>=4, >=2*depth frames pushed, 256 grid positions plus the boundary lattice of [0,1) (2^-k to 2^-64, 1-2^-k to 1-2^-53, 10^-k and 3x10^-k to 1e-16, 1-10^-k, 1e-100, 1e-300, the smallest normal and subnormal): within 1%; (e) reset after every history of length <=3 then every continuation of length 3 == fresh interpolator; distinct by case");
+    ctx.rule("frames f64, [f32;2], [i16;1]; depths 1..=8 and scale probes 12,16,17,25,32,33,50,64,100,128 (thorough 1..=16 and 17,20,25,31,32,33,50,63,64,65,100,127,128,129,200,256; depths above 8 with every 7th source, histories of length 2 and priming levels 0, depth, 2*depth only); (a) ratio 1 through Converter over an instrumented source: every source over {-1,-1/2,0,1/2,1} of length <=4 (thorough 5) plus impulse/step/ramp of length 3*depth: output k == 0 for k<depth and source[k-depth] after, within 1e-12 x peak, one pull per output; (b) linearity at x in k/16 (quick k/8) and at every priming level 0..=2*depth: impulse responses out(e_j) measured on the real code, every history over the alphabet of length <=3 (thorough 5): |out(h) - sum h_j out(e_j)| within (8 depth + 64) ulp x peak (ints: (2 depth + 2) LSB per term), out(c h) == c out(h) for c in {-1,1/2,2}; (c) every output finite; (d) constant input, depth>=4, >=2*depth frames pushed, 256 grid positions plus the boundary lattice of [0,1) (2^-k to 2^-64, 1-2^-k to 1-2^-53, 10^-k and 3x10^-k to 1e-16, 1-10^-k, 1e-100, 1e-300, the smallest normal and subnormal): within 1%; (e) reset after every history of length <=3 then every continuation of length 3 == fresh interpolator; (f) loud integer input ([i16;1], [u8;1] at 50/70/88/95 % of full scale; constant, alternating, paired, centre-pair and negative histories; depths 1,2,3,4,8,16; 16 positions) against an independent integer model of the kernel: output == centre-first sum of truncated tap contributions within 2 depth + 2 LSB whenever it fits, and no panic unless a centre-first partial sum leaves the sample range (that case is the recorded finding sinc.int-partial-sum-overflow, seen only in builds with overflow checks); distinct by case");
     ctx.sample(json!({"sys":"linear","fmt":"[i16;1]","depth":3,"pre":2,"l":3,"x":0.4375}));
     ctx.sample(json!({"sys":"transparent","fmt":"f64","depth":5,"src":[1.0,-0.5,0.0,0.5]}));
     ctx.assume("libm sin/cos inside the kernel are not modelled: linearity is checked against impulse responses measured on the same build");
